@@ -697,6 +697,29 @@ pub fn run(tier: Tier, replay: Option<&str>) {
         states.fetch_add(n, Ordering::Relaxed);
     });
 
+    // (b3) well-formed JoinAccepts (encrypted under the key the accessors are driven with) with every CFListType octet x body
+    // fillers x every DLSettings / RxDelay octet: the code behind a successful decryption is reached for every list type
+    (0..=255u32).into_par_iter().for_each(|ty| {
+        let mut n = 0u64;
+        for fk in 0..3u8 {
+            for (dl, rxd) in [(0u8, 0u8), (0xff, 0xff), (ty as u8, (ty as u8).wrapping_mul(29))] {
+                let mut cf = [0u8; 16];
+                cf[..15].copy_from_slice(&filler(fk, 15));
+                cf[15] = ty as u8;
+                let d = refcodec::JoinAcceptDesc { join_nonce: 0x010203, net_id: 0x040506, devaddr: 0x2601_1234, dl_settings: dl, rx_delay: rxd, cflist: Some(cf) };
+                go("frame", &refcodec::encode_join_accept(&d, &KEYS[2]));
+                n += 1;
+            }
+        }
+        if ty < 3 {
+            let d = refcodec::JoinAcceptDesc { join_nonce: 0xffffff, net_id: 0, devaddr: 0xffff_ffff, dl_settings: ty as u8, rx_delay: ty as u8, cflist: None };
+            go("frame", &refcodec::encode_join_accept(&d, &KEYS[2]));
+            n += 1;
+        }
+        ctx.tick(n);
+        states.fetch_add(n, Ordering::Relaxed);
+    });
+
     // (c2) every CID x every truncation point, alone / preceded by / followed by every defined command
     let combos: Vec<(&str, u8)> = SETS.iter().flat_map(|s| (0..=255u8).map(move |c| (*s, c))).collect();
     combos.par_iter().for_each(|&(set, cid)| {
@@ -827,7 +850,7 @@ pub fn run(tier: Tier, replay: Option<&str>) {
         "samples": samples,
         "evaluations": ctx.evals(),
         "distinct_nontrivial": states.load(Ordering::Relaxed),
-        "rule": "states = byte strings executed on the real parsers: (a) the complete append-a-byte tree to depth 3 for the frame parsers and depth 2 (quick) / 3 (thorough) for each of the six MAC command sets; (b) MHDR(256) x FCtrl(256) x total length 0..=40 x 3 fillers; (b2) data MHDRs(5) x FCtrl(256) x total length 6..=300 and 511..513, 520, 767, 768, 1023, 1024, 1040 x 3 fillers, as is and with a MIC that verifies; (c) every CID 0..=255 x every truncation point 0..=max_len+2 x 3 fillers, alone, preceded by and followed by every defined command of the set; (d) variable-length commands with every status byte / every length; (e) the checked constructor of every payload type on every slice length 0..=max+3 (first byte 0..=255, 3 fillers; McGroupStatusAns: every status octet x 0..=28 bytes) and the field types of lorawan::types, ChannelMask::is_enabled with every index up to 24 past the mask and at the top of usize. transitions = append-a-byte edges of the tree part",
+        "rule": "states = byte strings executed on the real parsers: (a) the complete append-a-byte tree to depth 3 for the frame parsers and depth 2 (quick) / 3 (thorough) for each of the six MAC command sets; (b) MHDR(256) x FCtrl(256) x total length 0..=40 x 3 fillers; (b2) data MHDRs(5) x FCtrl(256) x total length 6..=300 and 511..513, 520, 767, 768, 1023, 1024, 1040 x 3 fillers, as is and with a MIC that verifies; (b3) well-formed JoinAccepts with every CFListType octet 0..=255 x 3 body fillers x DLSettings / RxDelay octets; (c) every CID 0..=255 x every truncation point 0..=max_len+2 x 3 fillers, alone, preceded by and followed by every defined command of the set; (d) variable-length commands with every status byte / every length; (e) the checked constructor of every payload type on every slice length 0..=max+3 (first byte 0..=255, 3 fillers; McGroupStatusAns: every status octet x 0..=28 bytes) and the field types of lorawan::types, ChannelMask::is_enabled with every index up to 24 past the mask and at the top of usize. transitions = append-a-byte edges of the tree part",
         "tree_depth_frames": depth_frame,
         "tree_depth_command_sets": depth_sets,
         "exhaustive": true,
